@@ -284,6 +284,12 @@ def scriptOf (text : String) : Option (List Sx) :=
   | some (s :: _) => some s.list
   | _ => none
 
+def fnv (text : String) : UInt32 :=
+  text.toUTF8.toList.foldl (fun h b => (h ^^^ b.toUInt32) * 0x01000193) 0x811c9dc5
+
+def hex32 (n : UInt32) : String :=
+  String.ofList ((List.range 8).reverse.map fun i => hexDigit ((n.toNat / 16 ^ i) % 16))
+
 def replyExtra (r : Reply) : String :=
   "reply:" ++ toString r.id ++ ":" ++
     (match r.result with
@@ -299,8 +305,8 @@ def scripted (tag : String) : Code DExt where
     match scriptOf text with
     | some acts =>
       let (res, notes) := interp ch false acts own {} []
-      (res, tag ++ "|" ++ ";".intercalate notes)
-    | none => (.err, tag ++ "|unparsed")
+      (res, tag ++ "|" ++ hex32 (fnv text) ++ "|" ++ ";".intercalate notes)
+    | none => (.err, tag ++ "|" ++ hex32 (fnv text) ++ "|unparsed")
   query := fun m _env ch own =>
     match scriptOf (unquote (bytesStr m)) with
     | some acts =>
@@ -310,16 +316,16 @@ def scripted (tag : String) : Code DExt where
     | none => .err
 
 def fmtTraceEntry (t : TraceEntry) : String :=
-  let (tag, notes) := match t.note.splitOn "|" with
-    | tag :: rest => (tag, "|".intercalate rest)
-    | [] => ("", "")
+  let (tag, h, notes) := match t.note.splitOn "|" with
+    | tag :: h :: rest => (tag, h, "|".intercalate rest)
+    | _ => ("", "", "")
   let (name, sender, funds, extra) := match t.entry with
     | .execute i _ => ("execute", i.sender, fmtCoins i.funds, "-")
     | .instantiate i _ => ("instantiate", i.sender, fmtCoins i.funds, "-")
     | .reply r => ("reply", "-", "-", replyExtra r)
     | .sudo _ => ("sudo", "-", "-", "-")
     | .migrate _ => ("migrate", "-", "-", "-")
-  " ".intercalate [t.callee, name, tag, sender, funds, toString t.env.block.height, toString t.env.block.time, extra]
+  " ".intercalate [t.callee, name, tag, sender, funds, toString t.env.block.height, toString t.env.block.time, extra ++ "#" ++ h]
     ++ "|" ++ notes
 
 -- ---------------------------------------------------------------------------------------------
